@@ -26,6 +26,7 @@ import (
 
 	wtext "github.com/benoitkugler/webrender/text"
 
+	"wrverif/mp"
 	"wrverif/render"
 	"wrverif/res"
 	"wrverif/rng"
@@ -49,6 +50,11 @@ func hash(s string) string {
 
 // renderTrace runs the whole pipeline (parse, cascade, layout, draw) on the recording backend.
 func renderTrace(html string, fonts wtext.FontConfiguration, repo string) Trace {
+	t, _ := renderTraceDoc(html, fonts, repo)
+	return t
+}
+
+func renderTraceDoc(html string, fonts wtext.FontConfiguration, repo string) (Trace, *render.Doc) {
 	var t Trace
 	var d *render.Doc
 	var err error
@@ -70,11 +76,11 @@ func renderTrace(html string, fonts wtext.FontConfiguration, repo string) Trace 
 		t.Crash = "error: " + err.Error()
 	}
 	if t.Crash != "" {
-		return t
+		return t, nil
 	}
 	t.Pages = len(d.Pages)
 	t.Raw, t.Canon, t.MaxAnchorsPerPage = canonTrace(d.Rec)
-	return t
+	return t, d
 }
 
 func canonTrace(rec *render.Rec) (raw, canon string, maxPerPage int) {
@@ -224,28 +230,55 @@ func (rn *runner) stable(html string) bool {
 	return ok
 }
 
+var langRe = regexp.MustCompile(`lang="(bs_Cyrl|el_POLYTON|fr_CA|fr_CH|it_CH|kab|kkj|oc_ES|sr_Latn|ti_ER)[^"]+"`)
+
+func ablateLang(html string) string { return langRe.ReplaceAllString(html, `lang="$1"`) }
+
 // attribute names the known order-dependence an unstable document falls under, by ablation:
 //
 //	"out-of-flow-order"  (KF15-2) at least one float / absolutely positioned box, and the document with
 //	                     all of them put back in flow renders identically 6 times;
 //	"grid-item-order"    (KF15-3) a grid container, and the document with display:grid replaced by
 //	                     display:block renders identically 6 times;
-//	both joined by "+" when only removing both makes the document stable; "" when nothing does
-//	(the caller then keys the finding by the first differing call).  Callers hold rn.mu.
+//	"lang-quotes-order"  (KF15-4) a lang attribute extending one of the language keys that have a
+//	                     shorter key as prefix, and the document with the exact key renders identically 6 times;
+//	several joined by "+" when only removing all of them makes the document stable; "" when nothing
+//	does (the caller then keys the finding by the first differing call).  Callers hold rn.mu.
 func (rn *runner) attribute(d Doc) string {
 	if v, ok := rn.attrCache[d.HTML]; ok {
 		return v
 	}
-	hasOOF := oofRe.MatchString(d.HTML) // one float can be entered twice in brokenOutOfFlow (it is then drawn twice: C02)
-	hasGrid := gridRe.MatchString(d.HTML)
+	type abl struct {
+		name string
+		f    func(string) string
+	}
+	var app []abl
+	if oofRe.MatchString(d.HTML) { // one float can be entered twice in brokenOutOfFlow (it is then drawn twice: C02)
+		app = append(app, abl{"out-of-flow-order", ablateOOF})
+	}
+	if gridRe.MatchString(d.HTML) {
+		app = append(app, abl{"grid-item-order", ablateGrid})
+	}
+	if langRe.MatchString(d.HTML) {
+		app = append(app, abl{"lang-quotes-order", ablateLang})
+	}
 	v := ""
-	switch {
-	case hasOOF && rn.stable(ablateOOF(d.HTML)):
-		v = "out-of-flow-order"
-	case hasGrid && rn.stable(ablateGrid(d.HTML)):
-		v = "grid-item-order"
-	case hasOOF && hasGrid && rn.stable(ablateGrid(ablateOOF(d.HTML))):
-		v = "out-of-flow-order+grid-item-order"
+	for _, a := range app {
+		if rn.stable(a.f(d.HTML)) {
+			v = a.name
+			break
+		}
+	}
+	if v == "" && len(app) > 1 {
+		h := d.HTML
+		var names []string
+		for _, a := range app {
+			h = a.f(h)
+			names = append(names, a.name)
+		}
+		if rn.stable(h) {
+			v = strings.Join(names, "+")
+		}
 	}
 	rn.out.Hit("ablation:" + v)
 	if rn.attrCache == nil {
@@ -283,6 +316,21 @@ func Run(tier string, seed uint64, modelPath, repo string, out *res.Result) erro
 		docs[i].ID = i
 	}
 
+	var model *mp.Model
+	if modelPath != "" {
+		m, err := mp.Start(modelPath)
+		if err != nil {
+			return err
+		}
+		model = m
+		defer m.Close()
+		if err := witnessCorr(m, out); err != nil {
+			return err
+		}
+	} else {
+		out.NotChecked = append(out.NotChecked, "model correspondence (no -model given)")
+	}
+
 	// (b) + (c) fresh processes, in the background
 	fresh := newFreshPool(rn, docs, chunk, par, seed)
 	fresh.start()
@@ -296,8 +344,11 @@ func Run(tier string, seed uint64, modelPath, repo string, out *res.Result) erro
 	hr := rng.New(seed ^ 0xc15)
 	var ok []int // documents that render
 	for i, d := range docs {
-		ref := renderTrace(d.HTML, nil, repo)
+		ref, rdoc := renderTraceDoc(d.HTML, nil, repo)
 		base[i] = ref.hashes()
+		if rdoc != nil && model != nil {
+			linksCorr(model, d, rdoc, out)
+		}
 		if ref.Crash != "" {
 			out.Hit("crash-skipped")
 			out.Hit("crash-skipped:" + ref.Crash)
@@ -378,6 +429,9 @@ func Run(tier string, seed uint64, modelPath, repo string, out *res.Result) erro
 		}
 	} else {
 		out.NotChecked = append(out.NotChecked, "race detector run (thorough tier only)")
+	}
+	if model != nil {
+		out.Dist["model-calls"] = model.N
 	}
 	out.ModelCalls = out.Dist["compare:repeat"] + out.Dist["compare:history"] + out.Dist["compare:concurrent"] + out.Dist["compare:fresh-process"]
 	return nil
